@@ -6,6 +6,7 @@ import (
 	"bufio"
 	"bytes"
 	"context"
+	"errors"
 	"encoding/hex"
 	"encoding/json"
 	"fmt"
@@ -351,6 +352,10 @@ func c13spawn(jobs []c13job, out []c13jobRes) (diedJob, diedFn int, fatal string
 // cases a fresh child continues with what is left. A fatal crash on a job is
 // confirmed by re-running that single job/function alone in a fresh child (no
 // earlier allocations) before it is reported.
+var c13stop = func() bool { return false } // set by the test: wall-clock budget used up
+
+var errC13Stopped = errors.New("stopped: wall-clock budget")
+
 func c13runChild(jobs []c13job) ([]c13jobRes, error) {
 	out := make([]c13jobRes, len(jobs))
 	pending := make([]c13job, len(jobs))
@@ -371,6 +376,9 @@ func c13runChild(jobs []c13job) ([]c13jobRes, error) {
 		}
 		if start >= len(jobs) {
 			return out, nil
+		}
+		if c13stop() {
+			return out, errC13Stopped
 		}
 		sub := make([]c13jobRes, len(jobs)-start)
 		ts := time.Now()
@@ -555,6 +563,9 @@ func (s *c13state) explore(layer string, tokensAt func(depth int) []string, allo
 			for b := 0; b < len(jobs); b += batch {
 				e := min(b+batch, len(jobs))
 				out, err := c13runChild(jobs[b:e])
+				if err == errC13Stopped {
+					return
+				}
 				if err != nil {
 					panic(err)
 				}
@@ -589,6 +600,7 @@ func TestVerif_C13(t *testing.T) {
 	}
 	vrun.Main(t, "C13", func(r *vrun.Run) {
 		s := &c13state{r: r}
+		c13stop = r.TimeUp
 		if raw, ok := r.ReplayPayload(); ok {
 			var p c13replay
 			if err := json.Unmarshal(raw, &p); err != nil {
@@ -629,13 +641,40 @@ func TestVerif_C13(t *testing.T) {
 		r.Bounds["line_full_alphabet_up_to_depth"] = lineFullDepth
 		r.Bounds["line_tokens_max_for_2^30"] = hugeLineDepth // one level deeper as a chunk header ';2^30'
 		r.Bounds["child_address_space_limit"] = c13asLimit
-		r.Rule = "layer raw: every sequence of <= raw_tokens_max tokens over {17 type bytes, unknown type 'X', digits 0 1 7, lengths -1 -2 minInt64 maxInt64 10^20-1 2^30 65536 ?, CRLF, CR, LF, 'ab'} + EOF; layer line: every sequence of <= line_tokens_max complete header lines {17 type bytes} x {'' 0 1 2 - -0 -1 -2 ? a 65536 2^30 2^62 2^63-1 -2^63 10^20-1} x CRLF (a few with bare LF) and payload pieces (beyond line_full_alphabet_up_to_depth a reduced alphabet {+ : $ * % | ; .} x {'' 0 1 -2 ? 65536 2^62 2^63-1}; quick: {+ $ * % ; .} x {'' 1 -2 ? 65536 2^63-1} and only after prefixes that did not need the child); the 2^30 token (1 GiB allocations are slow even in the child) only at the positions given in bounds; prefixes are extended only while the decoder read past the end of the prefix (and did not already violate); each input through readNextMessage and streamTo with recover, heap bytes allocated during the call measured (runtime/metrics) and required <= 1MiB + 64*len(input); inputs with a >= 8 digit length after a length-carrying type byte run in a child process under RLIMIT_AS 4GiB (a fatal error of the child, confirmed in a fresh child, is a violation); plus deeply nested arrays in the child. non-trivial = input on which a decoder wanted more bytes or that needed the child"
+		r.Rule = "layer raw: every sequence of <= raw_tokens_max tokens over {17 type bytes, unknown type 'X', digits 0 1 7, lengths -1 -2 minInt64 maxInt64 10^20-1 2^30 65536 ?, CRLF, CR, LF, 'ab'} + EOF; layer line: every sequence of <= line_tokens_max complete header lines {17 type bytes} x {'' 0 1 2 - -0 -1 -2 ? a 65536 2^30 2^62 2^63-1 -2^63 10^20-1} x CRLF (a few with bare LF) and payload pieces (beyond line_full_alphabet_up_to_depth a reduced alphabet {+ : $ * % | ; .} x {'' 0 1 -2 ? 65536 2^62 2^63-1}; quick: {+ $ * % ; .} x {'' 1 -2 ? 65536} and only after prefixes that did not need the child); the 2^30 token (1 GiB allocations are slow even in the child) only at the positions given in bounds; prefixes are extended only while the decoder read past the end of the prefix (and did not already violate); each input through readNextMessage and streamTo with recover, heap bytes allocated during the call measured (runtime/metrics) and required <= 1MiB + 64*len(input); inputs with a >= 8 digit length after a length-carrying type byte run in a child process under RLIMIT_AS 4GiB (a fatal error of the child, confirmed in a fresh child, is a violation); plus deeply nested arrays in the child. non-trivial = input on which a decoder wanted more bytes or that needed the child"
 		r.Assume("allocation is measured as the growth of /gc/heap/allocs:bytes around the call (large objects are accounted immediately; small-object accounting may lag by at most a span per size class, far below the 1 MiB slack)")
 		r.Assume("stack memory is not counted as allocation; a stack overflow is reported as a fatal crash")
 		r.Assume("bufio reader sizes 32 (minimum rueidis configures) and 4096; split reads are covered by C12")
 		r.Assume("the search does not extend a prefix once it produced a violation for that function (extensions hit the same allocation/panic first)")
 
 		sizes := []int{4096, 32}
+		// ---- deep nesting (input generated inside the child; never in-process: a stack overflow is not recoverable)
+		if r.Mine(0) {
+			levels := 1500000
+			r.Bounds["nesting_levels"] = levels
+			frames := vrun.Pick(r, []string{"*1\r\n"}, []string{"*1\r\n", "%1\r\n+k\r\n", "*?\r\n", "|1\r\n+k\r\n", ">1\r\n"})
+			for _, fr := range frames {
+				for fn := 0; fn < 2; fn++ {
+					j := c13job{Gen: "nest:" + hex.EncodeToString([]byte(fr)) + ":" + strconv.Itoa(levels), Size: 4096}
+					j.Mask[fn] = true
+					out := make([]c13jobRes, 1)
+					dj, _, fatal, err := c13spawn([]c13job{j}, out) // alone in a fresh child
+					if err != nil {
+						panic(err)
+					}
+					res := out[0].res[fn]
+					if dj >= 0 {
+						res = &c13res{Out: "crash", Detail: fatal}
+					}
+					if res == nil {
+						panic("nest: no result")
+					}
+					r.StateStr("nest", j.Gen, strconv.Itoa(fn))
+					r.NonTrivialStr("nest", j.Gen, strconv.Itoa(fn))
+					s.judge(fn, nil, j.Gen, 4096, true, res)
+				}
+			}
+		}
 		// ---- layer raw
 		rawTokens := []string{"+", "-", ":", "$", "_", "#", ",", "(", "!", "=", "*", "~", "%", ">", "|", ";", ".", "X",
 			"0", "1", "7", "-1", "-2", "-9223372036854775808", "9223372036854775807", "99999999999999999999", "1073741824", "65536", "?",
@@ -669,7 +708,7 @@ func TestVerif_C13(t *testing.T) {
 		lineReduced := mk("+:$*%|;.", []string{"", "0", "1", "-2", "?", "65536", "4611686018427387904", "9223372036854775807"})
 		lineReduced = append(lineReduced, "_\r\n", "#t\r\n", "a\r\n", "ab\r\n", "ab", "a", "\r\n", "X")
 		if r.Quick() {
-			lineReduced = mk("+$*%;.", []string{"", "1", "-2", "?", "65536", "9223372036854775807"})
+			lineReduced = mk("+$*%;.", []string{"", "1", "-2", "?", "65536"})
 			lineReduced = append(lineReduced, "_\r\n", "a\r\n", "ab", "\r\n", "X")
 		}
 		s.explore("line", func(depth int) []string {
@@ -693,33 +732,6 @@ func TestVerif_C13(t *testing.T) {
 		r.Bounds["raw_alphabet"] = len(rawTokens)
 		r.Bounds["line_alphabet"] = len(lineTokens)
 
-		// ---- deep nesting (input generated inside the child; never in-process: a stack overflow is not recoverable)
-		if r.Mine(0) {
-			levels := 1500000
-			r.Bounds["nesting_levels"] = levels
-			frames := vrun.Pick(r, []string{"*1\r\n"}, []string{"*1\r\n", "%1\r\n+k\r\n", "*?\r\n", "|1\r\n+k\r\n", ">1\r\n"})
-			for _, fr := range frames {
-				for fn := 0; fn < 2; fn++ {
-					j := c13job{Gen: "nest:" + hex.EncodeToString([]byte(fr)) + ":" + strconv.Itoa(levels), Size: 4096}
-					j.Mask[fn] = true
-					out := make([]c13jobRes, 1)
-					dj, _, fatal, err := c13spawn([]c13job{j}, out) // alone in a fresh child
-					if err != nil {
-						panic(err)
-					}
-					res := out[0].res[fn]
-					if dj >= 0 {
-						res = &c13res{Out: "crash", Detail: fatal}
-					}
-					if res == nil {
-						panic("nest: no result")
-					}
-					r.StateStr("nest", j.Gen, strconv.Itoa(fn))
-					r.NonTrivialStr("nest", j.Gen, strconv.Itoa(fn))
-					s.judge(fn, nil, j.Gen, 4096, true, res)
-				}
-			}
-		}
 		r.Sample(map[string]any{"input": "$-2\r\n", "fn": "readNextMessage"})
 	})
 }
